@@ -426,6 +426,31 @@ End Jax.
 Theorem jax_check_exact N xshape : jax_check_accepts N xshape = true <-> jax_valid_primal N xshape.
 Proof. unfold jax_check_accepts, jax_valid_primal. rewrite orb_true_iff, !leqb_eq. tauto. Qed.
 
+(* ---- (iv') identity of the PyTensor Ops.  pytensor's Op.__eq__/__hash__ use
+   the class and __props__ only, and _PyTensorOperatorNoGrad declares
+   __props__ = ("dims", "dimsd", "shape"): the wrapped operator is NOT part
+   of the identity.  The graph-merge pass replaces equal Ops applied to the
+   same variable by ONE node. ---- *)
+Record pt_op (R : Type) := { pt_grad_support : bool;    (* class: PyTensorOperator / _PyTensorOperatorNoGrad *)
+  pt_dims : list nat; pt_dimsd : list nat; pt_mat : list (list R) }.
+Arguments pt_grad_support {R} _. Arguments pt_dims {R} _. Arguments pt_dimsd {R} _. Arguments pt_mat {R} _.
+Definition pt_eqb {R} (a b : pt_op R) : bool :=
+  Bool.eqb (pt_grad_support a) (pt_grad_support b) && leqb (pt_dims a) (pt_dims b) && leqb (pt_dimsd a) (pt_dimsd b)
+  && leqb [prod (pt_dimsd a); prod (pt_dims a)] [prod (pt_dimsd b); prod (pt_dims b)].
+(* PyTensorOperator(LOp) and the gradient Op it builds, _PyTensorOperatorNoGrad(LOp.H) *)
+Definition pt_wrap {R} dims dimsd (A : list (list R)) : pt_op R :=
+  {| pt_grad_support := true; pt_dims := dims; pt_dimsd := dimsd; pt_mat := A |}.
+Definition pt_gradient_op {R} dims dimsd (AH : list (list R)) : pt_op R :=
+  {| pt_grad_support := false; pt_dims := dimsd; pt_dimsd := dims; pt_mat := AH |}.
+(* the forward Op and its own gradient Op are of different classes: never merged *)
+Theorem pt_forward_gradient_distinct {R} dims dimsd (A AH : list (list R)) :
+  pt_eqb (pt_wrap dims dimsd A) (pt_gradient_op dims dimsd AH) = false.
+Proof. reflexivity. Qed.
+(* but two wrappers of DIFFERENT operators with the same dims/dimsd compare equal *)
+Theorem pt_wrap_eq_ignores_operator {R} dims dimsd (A B : list (list R)) :
+  pt_eqb (pt_wrap dims dimsd A) (pt_wrap dims dimsd B) = true.
+Proof. unfold pt_eqb, pt_wrap; cbn. rewrite !leqb_refl, !Nat.eqb_refl. reflexivity. Qed.
+
 (* ===================================================================== *)
 (* Legacy: the code BEFORE the fix commits (dfcf977 jax, 1310770 torch batch
    ranks, 5b7f0c6 gradient shape).  Kept as documentation of the four
